@@ -84,6 +84,10 @@ pub struct Trace {
     pub shorthand_expansions: u64,
     pub scoped_reads: u64,
     pub scoped_inherited_reads: u64,
+    /// inherited reads with at least two defining ancestors
+    pub scoped_inherited_multi: u64,
+    /// scoped reads / definitions on a node that shares its byte range with its parent
+    pub same_range_touched: u64,
     pub scoped_defs: u64,
     pub calls: u64,
     pub max_depth: usize,
@@ -693,7 +697,16 @@ impl<'a> Interp<'a> {
 
     fn scope_node(&mut self, scope: &Expr, env: &mut Env) -> R<usize> {
         match self.eval(scope, env)? {
-            CVal::Syn(n) => Ok(n),
+            CVal::Syn(n) => {
+                let info = &self.index.nodes[n];
+                if let Some(p) = info.parent {
+                    let pi = &self.index.nodes[p];
+                    if pi.start_byte == info.start_byte && pi.end_byte == info.end_byte {
+                        self.trace.same_range_touched += 1;
+                    }
+                }
+                Ok(n)
+            }
             other => self.err(ErrKind::Type, format!("scope is a {}", other.type_name()), env),
         }
     }
@@ -780,15 +793,21 @@ impl<'a> Interp<'a> {
                     slot.0.clone()
                 } else if self.inherited.contains(name) {
                     let mut found = None;
+                    let mut defining = 0;
                     for anc in self.index.ancestors(node) {
                         if let Some(slot) = self.scoped.get(&(anc, name.clone())) {
-                            found = Some(slot.0.clone());
-                            break;
+                            if found.is_none() {
+                                found = Some(slot.0.clone());
+                            }
+                            defining += 1;
                         }
                     }
                     match found {
                         Some(v) => {
                             self.trace.scoped_inherited_reads += 1;
+                            if defining >= 2 {
+                                self.trace.scoped_inherited_multi += 1;
+                            }
                             v
                         }
                         None => return self.err(ErrKind::UndefinedScopedVariable, format!("{} is not defined on node {} or its ancestors", name, node), env),
